@@ -55,6 +55,18 @@ CHECKS = {
    text="Inside REAL sessions (4 bases opened through the real snapshot path with all plugins registered: whole + fractional victims, a device shared by running / terminating sharers, a 2-node gang, elastic + gpu-memory) EVERY well-formed sequence of length <= 5 (quick) / 6 (thorough) of the operations the actions issue on a Statement {AllocateJob real, AllocateJob pipeline-only, Evict, Unevict, Checkpoint, Rollback(cp_i), ConvertAllAllocatedToPipelined} is executed and discarded; the canonical dump of the scheduler's view (node counters + vectors + pods + per-device maps, per-task status/node/groups/virtual flag/claims, job and pod-set counters, queue usage) after Discard must equal the dump before, and after Rollback the dump at the checkpoint (60k sequences, 370k operations quick). Commit clause: over ~3.5k real cycles of the gang and victims grammars no pod is bound or evicted twice in one cycle.",
    note="Trusted: the dump (pending tasks' scratch device choice is excluded; queue GPUs are printed only below 1 because the accessor truncates), well-formedness = enabled in the live state + conversion only on eviction-free statements (as the allocate action does).",
    technique="exhaustive bounded enumeration of operation sequences on the real session with a differential (state-before == state-after) oracle"),
+ "C11": dict(engine="ctrlmc", cat="fault_enumeration", ref="§5 C11",
+   text="Stateless DFS over choice sequences on the REAL BindRequestReconciler + Binder + resource-reservation service + GPUSharing and DRA plugins over an intercepted controller-runtime fake client: every client call is a numbered choice point whose answers are ok / err (not applied) / crash (store frozen, fresh process image + startup Sync for recovery) / lost (applied but reported failed; thorough). All executions with 0, 1 and 2 deviations for 8 pod kinds (whole GPU, fraction new/existing group, gpu-memory, multi-fraction, named init container, DRA, fraction+DRA) and chained start states (6.4k executions quick, 80k thorough). Oracle after the faulty attempt and after recovery to fixpoint: bound only to the selected node, at most one binding call, no-op on Succeeded/bound, Failed reported, no side effect left on an unbound pod, side objects exact after recovery, C17 invariant.",
+   note="Trusted: the intercepted fake client incl. a ~20-line emulation of the pods/binding sub-resource and pre-filled watch answers; live reads (no informer staleness).",
+   technique="exhaustive fault/crash-point enumeration (deviation-bounded stateless search over API-call choice points of the real reconciler)"),
+ "C17": dict(engine="ctrlmc", cat="model_checking", ref="§5 C17",
+   text="(i) Explicit-state search over event histories (depth 5 quick / 7 thorough) on the REAL binder: binds, binds failing at a chosen call, consumer completion / deletion followed by the real pod-controller handler, BindRequest deletion followed by its real handler, crashes between reservation-pod creation and consumer labelling followed by the startup Sync; (ii) stateless DFS over interleavings of 2-3 goroutines each running a real entry point (reconcile/ReserveGpuDevice, SyncForGpuGroup/SyncForNode, pod and BindRequest delete handlers) on the same GPU group under a cooperative scheduler with scheduling points at every client call and every group-mutex Lock/Unlock (O-groupmutex overlay), preemption bound 2 (3 thorough), deadlock detection, schedule replay. Oracle at every quiescent state: <= 1 reservation pod per group, reservation exists iff a live consumer carries the group, no running consumer without reservation, consumers' device index = reservation pod's index.",
+   note="Trusted: as C11 plus the mutex shim (single import substitution checked at build time). Goroutine switches only at the instrumented points; a free-running -race pass is not built.",
+   technique="explicit-state search over event histories + preemption-bounded interleaving exploration of the real binder code under a cooperative scheduler"),
+ "C18": dict(engine="ctrlmc", cat="model_checking", ref="§5 C18",
+   text="Explicit-state search over reconcile orders and histories on the REAL pod-grouper PodReconciler with the real plugin hub (20 owner chains over 12 kinds incl. skip-top-owner, 1-3 sibling pods): every permutation of first reconciles followed by repeat passes, every replica subset, and BFS (depth 6 quick / 7 thorough) over reconciles interleaved with foreign updates of the PodGroup (queue, markUnschedulable, schedulingBackoff, node-pool label, scheduler annotations/status); each permutation also under a different Go map order. Oracles: documented grouping partition, differential equality of the final PodGroups across all orders/repeats/replica subsets, zero mutating client calls when nothing changed, foreign-owned fields preserved.",
+   note="Trusted: controller-runtime fake client (JSON round trip), counting interceptor, informer-cache emulation; reconciles are atomic (no thread interleavings).",
+   technique="explicit-state search over reconcile orders / foreign-update histories of the real controller with differential and write-count oracles"),
 }
 
 NOT_APPLICABLE = []
